@@ -177,6 +177,13 @@ func osTemplates() []osTemplate {
 		T("filepath.walk_dir#real-symlink-name", `os.mkdir_all("/bin"); os.write_file("/bin/simtool", "t"); names := []; filepath.walk_dir("/bin", func(p, d, e) { names.append(p) }); return string(names)`, []string{"\"/bin/simtool\""}, []string{"WalkDir"}, true),
 		T("os.read_dir#real-symlink-name", `os.mkdir_all("/lib"); os.write_file("/lib/simlib", "t"); return string(os.read_dir("/lib").map(func(e) { return e.name }))`, []string{"simlib"}, []string{"ReadDir"}, true),
 		T("os.stat#real-symlink-name", `os.mkdir_all("/sbin"); return string(os.stat("/sbin").is_dir) + ":" + string(os.stat("/sbin").name)`, []string{"true:sbin"}, []string{"Stat"}, true),
+		// OS-touching builtins handed to list.map as the function
+		T("builtin.getenv#mapped", `return string(["VERIF_SENTINEL", "SIMONLY"].map(getenv))`, []string{"sim-value", "only-in-sim"}, []string{"Getenv"}, false),
+		T("os.getenv#mapped", `return string(["VERIF_SENTINEL", "REALONLY"].map(os.getenv))`, []string{"sim-value"}, []string{"Getenv"}, false),
+		T("builtin.cat#mapped", `return string(["a.txt"].map(cat))`, []string{"alpha-sim"}, []string{"ReadFile"}, true),
+		// cp of a file whose name also exists (with another mode) in the real
+		// working directory of the process
+		T("builtin.cp#real-name", `os.write_file("real-sentinel.txt", "virt-src"); cp("real-sentinel.txt", "copied.txt"); return string(os.stat("copied.txt").mode) + ":" + string(os.read_file("copied.txt"))`, []string{"-rw-r--r--:virt-src"}, []string{"WriteFile", "ReadFile"}, true),
 		// directories whose names also exist on the real machine
 		{Name: "os.mkdir_all#real-name", Covers: "os.mkdir_all", Body: `os.mkdir_all("/tmp/simd/sub"); os.mkdir_all("/realsub/inner"); return string(os.stat("/tmp/simd/sub").is_dir) + ":" + string(os.stat("/tmp").is_dir) + ":" + string(os.stat("/realsub").is_dir)`, Contains: []string{"true:true:true"}, VosContains: []string{"true:true:true"}, Methods: []string{"MkdirAll", "Stat"}, Failable: true, ExitCode: -1},
 		// a file that also exists on the real machine, renamed to another
@@ -272,7 +279,7 @@ func c12Uncovered(ts []osTemplate) []string {
 	return missing
 }
 
-var c12Contexts = []string{"top", "spawn", "go-chan", "clone-call", "module-body", "module-func", "callback", "defer", "vm-reuse", "vm-reuse-spawn", "vm-reuse-call", "vm-reuse-os-kept", "nested-eval", "defer-after-cancel", "after-failed-output"}
+var c12Contexts = []string{"top", "spawn", "go-chan", "clone-call", "module-body", "module-func", "callback", "defer", "vm-reuse", "vm-reuse-spawn", "vm-reuse-call", "vm-reuse-os-kept", "nested-eval", "defer-after-cancel", "after-failed-output", "clone-call-empty"}
 var c12Routes = []string{"WithOS", "ctx", "ctx-layered", "vos"}
 var c12Faults = []string{"none", "fail-first", "fail-all", "relative-cwd", "fail-second"}
 
@@ -388,7 +395,7 @@ func c12Source(t osTemplate, context string) (main string, modules map[string]st
 		return probe + "t := spawn(func() { return try(probe, " + handler + ") })\nt.wait()\n", nil
 	case "go-chan":
 		return probe + "c := chan(1)\ngo func() { r := try(probe, " + handler + "); c <- r }()\n<-c\n", nil
-	case "clone-call":
+	case "clone-call", "clone-call-empty":
 		return probe + "func entry() { return try(probe, " + handler + ") }\n\"defined\"\n", nil
 	case "module-body":
 		return "import pm\npm.body_result\n", map[string]string{"pm.risor": probe + "body_result := try(probe, " + handler + ")\n"}
@@ -492,6 +499,7 @@ func runC12(rc *fw.RunCtx) {
 		}
 		goos.WriteFile(scratch+"/real-sentinel.txt", []byte("only-real-file-content"), 0o644)
 		goos.Mkdir(scratch+"/realsub", 0o755) // (a real directory, relative to the real working directory)
+		goos.Chmod(scratch+"/real-sentinel.txt", 0o600)
 		if err := goos.Chdir(scratch); err != nil {
 			panic("harness: " + err.Error())
 		}
@@ -587,7 +595,43 @@ func runC12(rc *fw.RunCtx) {
 	}
 
 	out := &EvalOutcome{}
-	if ctxName == "clone-call" {
+	if ctxName == "clone-call-empty" {
+		// the same, on a VM made with vm.NewEmpty and driven by RunCode (there is
+		// no main code on such a VM)
+		cfg := risor.NewConfig(opts...)
+		s.Go("main", "definer", func() {
+			ast, err := parser.Parse(context.Background(), src)
+			if err != nil {
+				panic("harness: " + err.Error())
+			}
+			code, err := compiler.Compile(ast, cfg.CompilerOpts()...)
+			if err != nil {
+				panic("harness: " + err.Error())
+			}
+			machine, err := vm.NewEmpty()
+			if err != nil {
+				panic("harness: " + err.Error())
+			}
+			if err := machine.RunCode(ctx, code, cfg.VMOpts()...); err != nil {
+				out.Err = err
+				out.Done = true
+				return
+			}
+			s.Go("host", "clone-caller", func() {
+				guard(out, func() (object.Object, error) {
+					clone, err := machine.Clone()
+					if err != nil {
+						return nil, err
+					}
+					fnObj, err := machine.Get("entry")
+					if err != nil {
+						return nil, err
+					}
+					return clone.Call(ctx, fnObj.(*object.Function), nil)
+				})
+			})
+		})
+	} else if ctxName == "clone-call" {
 		// host task 1 defines the functions; host task 2 calls entry() on a clone
 		cfg := risor.NewConfig(opts...)
 		var machine *vm.VirtualMachine
